@@ -1089,6 +1089,7 @@ func runC07VarintWrite(c *Ctx) {
 			continue
 		}
 		problem, undec := "", ""
+		skipped := 0
 		var tests []int64
 		for _, v := range vals {
 			tests = append(tests, v)
@@ -1102,7 +1103,11 @@ func runC07VarintWrite(c *Ctx) {
 				want = uvarint(zigzag(v))
 			}
 			m := &Model{Num: map[string]float64{}, Bool: map[string]bool{}, Missing: map[string]bool{}}
-			it := &k4interp{p: c.P, m: m, mem: map[string]k4val{}}
+			it := &k4interp{p: c.P, m: m, mem: map[string]k4val{}, inline: func(g *ssa.Function) bool {
+				// one writer may be written in terms of the other
+				nm := FuncName(g)
+				return nm == "geom.(*twkbWriter).writeUnsignedVarint" || nm == "geom.(*twkbWriter).writeSignedVarint" || nm == "geom.encodeZigZagInt64"
+			}}
 			it.mem["$0.twkbContents"] = k4val{kind: 8, s: "OUT", ln: 0, cp: 0}
 			lastN := -1
 			it.onOpaque = func(name string, args []k4val) {
@@ -1126,6 +1131,12 @@ func runC07VarintWrite(c *Ctx) {
 				return k4val{}, false
 			}
 			if _, err := it.call(f, []k4val{{kind: 3, s: "$0"}, {kind: 2, f: float64(v)}}, nil); err != nil {
+				if v < 0 {
+					// two's-complement bit tricks on a negative value (^x, uint64(x) of x < 0) are outside what the
+					// interpreter models exactly: negative values are then not judged
+					skipped++
+					continue
+				}
 				undec = fmt.Sprintf("value %d: %v %s", v, err, missingList(m))
 				break
 			}
@@ -1153,7 +1164,7 @@ func runC07VarintWrite(c *Ctx) {
 				break
 			}
 		}
-		reportK4(c, f, "bytes appended for a value", undec, problem, fmt.Sprintf("the canonical varint for all %d values around the byte boundaries", len(tests)))
+		reportK4(c, f, "bytes appended for a value", undec, problem, fmt.Sprintf("the canonical varint for %d values around the byte boundaries (%d negative ones not interpretable, not judged)", len(tests)-skipped, skipped))
 	}
 }
 
@@ -1241,7 +1252,8 @@ func init() {
 func runC12Convert(c *Ctx) {
 	inl := func(g *ssa.Function) bool {
 		switch FuncName(g) {
-		case "geom.(Envelope).IsEmpty", "geom.fastMin", "geom.fastMax", "geom.(Envelope).MinMaxXYs", "geom.newUncheckedEnvelope", "geom.(Envelope).IsPoint", "geom.(Envelope).IsLine", "geom.(Envelope).IsRectangle":
+		case "geom.(Envelope).IsEmpty", "geom.fastMin", "geom.fastMax", "geom.(Envelope).MinMaxXYs", "geom.newUncheckedEnvelope", "geom.(Envelope).IsPoint", "geom.(Envelope).IsLine", "geom.(Envelope).IsRectangle",
+			"geom.NewEnvelope", "geom.(Envelope).ExpandToIncludeXY", "geom.(Envelope).ExpandToIncludeEnvelope":
 			return true
 		}
 		return false
